@@ -46,6 +46,12 @@ RULE_RC = ("executions = random API programs (2-4 threads, <=40 ops each, 2-3 ro
            "with injected delays (mode P); distinct = distinct hash of the sequence of (thread, site, next thread) context "
            "switches and op boundaries (mode S) / of the op logs (mode P); non-trivial = ")
 
+def choreo_job(prop, relevant, profile="c02g"):
+    return dict(name=f"{profile}-S", variant="debug", stage=0,
+                args=["rc", "--profile", profile, "--mode", "S", "--prop", prop, "--relevant", relevant],
+                shards=dict(quick=6, thorough=16), secs=dict(quick=20, thorough=300))
+
+
 def scen_job(which, prop):
     return dict(name=f"scen-{which}", variant="debug", stage=0,
                 args=["scen", "--which", which, "--prop", prop, "--nshards", "4", "--tier", "{tier}"],
@@ -68,12 +74,12 @@ SEQ_ASSUME = ["single driver thread: epoch advances are produced only by the che
 
 CHECKS = {
     "C01": dict(
-        jobs=rc_jobs("c01", "C01", "shared_destruct,inc_from_zero", focused="c01f", extra=[scen_job("c01", "C01")]),
+        jobs=rc_jobs("c01", "C01", "shared_destruct,inc_from_zero", focused="c01f", extra=[choreo_job("C01", "shared_destruct,inc_from_zero", "c01g"), scen_job("c01", "C01")]),
         rule=RULE_RC + "the execution contained a destruct attempt on an object that >=2 threads touched, or an increment from a zero count",
         accept=["C01"], assumptions=RC_ASSUME, floor=dict(quick=50, thorough=500),
     ),
     "C02": dict(
-        jobs=rc_jobs("c02", "C02", "snap_destruct", focused="c02f", extra=[scen_job("c02", "C02"), dict(name="scen-d10", variant="debug", stage=0, args=["scen", "--which", "d10", "--prop", "C02"], shards=dict(quick=1, thorough=1))]),
+        jobs=rc_jobs("c02", "C02", "snap_destruct", focused="c02f", extra=[choreo_job("C02", "snap_destruct"), scen_job("c02", "C02"), dict(name="scen-d10", variant="debug", stage=0, args=["scen", "--which", "d10", "--prop", "C02"], shards=dict(quick=1, thorough=1))]),
         rule=RULE_RC + "the execution contained a destruct attempt (root or cascade) on an object for which a Snapshot record existed",
         accept=["C02"], assumptions=RC_ASSUME, floor=dict(quick=50, thorough=500),
     ),
@@ -88,9 +94,9 @@ CHECKS = {
         accept=["C04"], assumptions=RC_ASSUME, floor=dict(quick=50, thorough=500),
     ),
     "C05": dict(
-        jobs=rc_jobs("c05", "C05", "upgrade_race", focused="c05f"),
+        jobs=rc_jobs("c05", "C05", "upgrade_race", focused="c05f", extra=[choreo_job("C05", "upgrade_race"), choreo_job("C05", "upgrade_race", "c01g"), scen_job("c05", "C05")]),
         rule=RULE_RC + "an upgrade whose interval overlaps or follows a destruct attempt on its target",
-        accept=["C05"], assumptions=RC_ASSUME, floor=dict(quick=20, thorough=200),
+        accept=["C05"], accept_sig=[r"origin=WeakSnapshot::upgrade", r"via=(Weak|WeakSnapshot)::upgrade"], assumptions=RC_ASSUME, floor=dict(quick=20, thorough=200),
     ),
     "C08": dict(
         jobs=rc_jobs("c08", "C08", "overlap_mutators,cas_epoch_differs"),
@@ -209,8 +215,13 @@ CHECKS.update({
                 rule="executions = 2-4 threads x 3-8 push/try_pop/try_pop_if ops with unique values on the collector's queue type (through the shim) under serialized schedules with stalls at the queue's atomics (S) / free-running (P); "
                      "each history (plus the final drain) is checked for FIFO linearizability and conservation; distinct = schedule hash / history hash; non-trivial = operations of different threads overlap",
                 accept=["C17"], assumptions=EBR_ASSUME[1:], floor=dict(quick=50, thorough=500)),
-    "C18": dict(jobs=ql_jobs("c18"),
+    "C18": dict(jobs=ql_jobs("c18") + [
+                    dict(name="c18e-S", variant="debug", stage=0, args=["ebr", "--profile", "c18e", "--mode", "S", "--prop", "C14"],
+                         shards=dict(quick=8, thorough=16), secs=dict(quick=15, thorough=240)),
+                    dict(name="c18e-P-release", variant="release", stage=1, threads=3, args=["ebr", "--profile", "c18e", "--mode", "P", "--prop", "C14"],
+                         shards=dict(quick=3, thorough=5), secs=dict(quick=6, thorough=60))],
+                accept_sig=[r"^C14\|pinned-participant-sees-more-than-one-advance"],
                 rule="executions = 2-4 threads x 3-9 insert/delete/traverse ops on the participant list type (through the shim); every non-stalled traversal must contain every element inserted before it began and not deleted before it ended, "
-                     "must not contain never-inserted or already-deleted elements, and every element is finalized and freed exactly once; distinct = schedule hash / history hash; non-trivial = a traversal overlaps an insert or delete",
+                     "must not contain never-inserted or already-deleted elements, and every element is finalized and freed exactly once; distinct = schedule hash / history hash; non-trivial = a traversal overlaps an insert or delete; plus the real registry: private-collector programs with participants registering and leaving back-to-back while others advance, where an overlooked pinned participant shows as global - announced > 1",
                 accept=["C18"], assumptions=EBR_ASSUME[1:], floor=dict(quick=50, thorough=500)),
 })
